@@ -8,6 +8,7 @@ from .. import build
 build.load_kernel("plain")
 
 import pylife.materiallaws.notch_approximation_law as NAL  # noqa: E402
+import pylife.materiallaws.notch_approximation_law_seegerbeste as NALSB  # noqa: E402
 import pylife.stress.rainflow.fkm_nonlinear as FN  # noqa: E402
 import pylife.stress.rainflow.recorders as REC  # noqa: E402
 
@@ -23,7 +24,7 @@ def binned_law(kind="EN", E=206e3, K=1184.0, n=0.187, K_p=3.5, max_load=100.0, b
         if kind == "EN":
             law = NAL.ExtendedNeuber(E, K, n, K_p)
         else:
-            law = NAL.SeegerBeste(E, K, n, K_p)
+            law = NALSB.SeegerBeste(E, K, n, K_p)
         _LAWS[key] = (law, NAL.Binned(law, max_load, bins))
     return _LAWS[key]
 
